@@ -48,9 +48,9 @@ DEFAULT_TIMEOUT = 240
 
 PROGRAMS = {
     "C02": ["clone_read_drop_2t", "clone_read_drop_3t", "clone_in_thread_then_drop", "thin_offset_union_2t",
-            "thin_2t", "offset_2t", "union_2t", "borrow_clone_arc_2t", "handoff_chain_4t", "convert_under_sharing"],
+            "thin_2t", "offset_2t", "union_2t", "borrow_clone_arc_2t", "handoff_chain_4t", "convert_under_sharing", "nodrop_payload_2t"],
     "C03": ["poll_get_mut_write", "poll_is_unique_then_write", "thin_with_arc_mut_get_mut", "declining_try_unwrap_vs_gates"],
-    "C08": ["make_mut_vs_readers", "offset_make_mut_vs_readers"],
+    "C08": ["make_mut_vs_readers", "offset_make_mut_vs_readers", "offset_make_mut_overaligned"],
     "C09": ["racing_try_unwrap_2t", "racing_try_unwrap_3t", "try_unwrap_vs_drop", "unwrap_or_clone_vs_drop",
             "try_unique_vs_drop", "declining_try_unwrap_vs_gates"],
 }
@@ -367,6 +367,11 @@ def run_suite(ctx, programs, seeds, timeout_s=DEFAULT_TIMEOUT, stop_first=False)
     out = [results[j] for j in jobs if j in results]
     common.log("miri: %d runs (%d programs x %d seeds) against %s in %.1fs: %s" % (
         len(out), len(programs), len(seeds), ctx.repo, time.time() - t0, status_counts(out)))
+    # a litmus program that does not build / start is never silently skipped: it is an undischarged obligation
+    # (the public API the program uses changed, or the tooling is broken)
+    te = sorted({r["program"] for r in out if r.get("status") == "tool-error"})
+    if hasattr(ctx, "oblige"):
+        ctx.oblige("miri:litmus-programs-build-and-start", not te, "tool errors: %s" % te)
     return out
 
 
